@@ -19,7 +19,9 @@ Judge(rec) ==
         fs == Classify(b, a, rec.start)
     IN IF Acceptable(b, a, rec.start) # (Fails(b, a, rec.start) = {}) THEN "spec-inconsistent"
        ELSE IF fs # {} THEN VerdictOf(fs)
-       ELSE LET m == ImplRun(b, rec.start, TRUE, TRUE) IN
+       ELSE LET r == ImplRun(b, rec.start, FALSE, FALSE)                       \* the code as it is (all deviations repaired)
+                m == IF r.panic THEN [r EXCEPT !.max_id = 0] ELSE r             \* new_id.saturating_sub(1)
+            IN
             IF m.objs = a.objs /\ m.trailer = a.trailer /\ m.bms = a.bms /\ m.max_id = a.max_id
             THEN "ok" ELSE "ok-drift"
 
